@@ -5,6 +5,7 @@ use slab::Slab;
 
 use super::{BridgeError, Request};
 use crate::bridge::request_serde::ResolveSerialized;
+use crate::core::ResolveError;
 use crate::Effect;
 
 #[derive(Debug, Clone, Copy, PartialEq, Eq, Serialize, Deserialize)]
@@ -58,8 +59,9 @@ impl ResolveRegistry {
         let entry = registry_lock.get_mut(id.0 as usize);
 
         let Some(entry) = entry else {
-            // FIXME return an Err instead of panicking here.
-            panic!("Request with {id:?} not found.");
+            // There is no request waiting under this id: it was never issued, or it has
+            // already been resolved and forgotten. Either way it can't be resolved (again).
+            return Err(BridgeError::ProcessResponse(ResolveError::Never));
         };
 
         let resolved = entry.resolve(body);
